@@ -28,6 +28,7 @@ GEO_DEFAULT = [dict(cell=[15, 32], px=[1920, 1080])]
 GEO_ALL = [dict(cell=[15, 32], px=[1920, 1080]), dict(cell=[24, 40], px=[1280, 720]), dict(cell=[10, 20], px=[640, 480])]
 GEO_TWO = GEO_ALL[:2]
 TIMES = [1, 2, 4, 5, 6]
+TIMES_QUICK = [1, 2, 4, 5]
 
 
 def _values():
@@ -102,14 +103,16 @@ def families(tier):
   def qd(q, d):
     return d if deep else q
 
-  def fam(name, skel, axes, anim, ini, geo, focus, times=TIMES, fullcheck=False):
+  def fam(name, skel, axes, anim, ini, geo, focus, times=None, fullcheck=False):
+    times = times or qd(TIMES_QUICK, TIMES)
     nlv = SKELS[skel]["n"] + 1
     F[name] = dict(skel=skel, axes=[_axis(V, a[0], a[1], nlv) for a in axes],
                    anim=anim, ini=ini, geo=geo, times=times, focus=focus, full=fullcheck)
 
   # 0. every applicable property of every element kind has a well-shaped, root-relative computed value (all 36 looked at)
   fam("all_props", "rubyc", [("FontSize", {1: [0, 3], 4: [0, 1], 10: [0, 4]}), ("WritingMode", {1: [0, 1]}), ("Color", {4: [0, 1]})],
-      [[], [st(4, 1, 2)]], [[], [dict(ax=1, vi=1)]], GEO_TWO, ["FontSize", "WritingMode", "Color"], fullcheck=True)
+      [[], [st(4, 1, 2)]], qd([[]], [[], [dict(ax=1, vi=1)]]), qd(GEO_DEFAULT, GEO_TWO), ["FontSize", "WritingMode", "Color"],
+      times=qd([1, 4], TIMES), fullcheck=True)
   # 1. opaque inheritable: colour through body/div/p (where it does not apply) down to the spans; textAlign likewise to p
   lv_all = {1: full, 2: qd([0, 1], full), 3: qd([0], full), 4: full, 5: qd([0, 2], full), 6: full}
   anim3 = [[], [st(1, 1, 2)], [st(4, 1, 1)], [st(5, 1, 2), st(5, 1, 1, N, N)]] + qd([], [[st(6, 1, 1, 0, N), st(6, 1, 2, 2, 4)]])
@@ -163,11 +166,11 @@ def families(tier):
   # 8. extent / origin / position on the region x resolutions
   ext = [0, 1, 2, 3, 4]
   fam("extent_origin_position", "chain", [("Extent", {1: ext}), ("Origin", {1: qd([0, 1, 2], ext)}), ("Position", {1: list(range(0, 8))})],
-      [[], [st(1, 3, 2)], [st(1, 1, 3)]] + qd([], [[st(1, 2, 1)]]), [[], [dict(ax=1, vi=1)]] + qd([], [[dict(ax=2, vi=3)]]), qd(GEO_TWO, GEO_ALL),
+      [[], [st(1, 3, 2)]] + qd([], [[st(1, 1, 3)], [st(1, 2, 1)]]), [[], [dict(ax=1, vi=1)]] + qd([], [[dict(ax=2, vi=3)]]), qd(GEO_TWO, GEO_ALL),
       ["Extent", "Origin", "Position"])
   # 9. padding x writing modes x extent
   fam("padding", "chain", [("Padding", {1: [0, 1, 2, 3, 4, 5]}), ("WritingMode", {1: wm}), ("Extent", {1: qd([0, 1], [0, 1, 2])}), ("FontSize", {1: [0, 1]})],
-      [[], [st(1, 2, 1)], [st(1, 1, 1)]] + qd([], [[st(1, 3, 3)]]), [[], [dict(ax=2, vi=2)]] + qd([], [[dict(ax=1, vi=3)]]), qd(GEO_TWO, GEO_ALL),
+      [[], [st(1, 2, 1)]] + qd([], [[st(1, 1, 1)], [st(1, 3, 3)]]), [[], [dict(ax=2, vi=2)]] + qd([], [[dict(ax=1, vi=3)]]), qd(GEO_TWO, GEO_ALL),
       ["Padding", "WritingMode", "Extent", "FontSize"])
   # 10. disparity -> rw
   fam("disparity", "chain", [("Disparity", {1: [0, 1, 2, 3, 4, 5]}), ("FontSize", {1: [0, 1]})],
@@ -176,17 +179,9 @@ def families(tier):
 
 
 CFG = """CONSTANTS
-  Skel <- MCSkel
-  Axes <- MCAxes
-  AnimOpts <- MCAnimOpts
-  IniOpts <- MCIniOpts
-  Geos <- MCGeos
-  TimeSeq <- MCTimeSeq
-  Focus <- MCFocus
-  FullCheck <- MCFullCheck
+  Fams <- MCFams
 SPECIFICATION Spec
-INVARIANT Inv_Exists
-INVARIANT Inv_RootRelative
+INVARIANT Inv_ExistsRootRelative
 INVARIANT Inv_InheritedOpaque
 INVARIANT Inv_NoLeak
 INVARIANT Inv_TextDecoration
@@ -198,27 +193,17 @@ PROPERTY ChangesOnlyAtStepBoundaries
 """
 
 
-def mc_module(fam):
-  sk = SKELS[fam["skel"]]
-  defs = [
-    "MCSkel == " + _to_tla(sk),
-    "MCAxes == " + _to_tla(fam["axes"]),
-    "MCAnimOpts == " + _to_tla(set_of_seqs(fam["anim"])),
-    "MCIniOpts == " + _to_tla(set_of_seqs(fam["ini"])),
-    "MCGeos == " + _to_tla(SetLit(fam["geo"])),
-    "MCTimeSeq == " + _to_tla(fam["times"]),
-    "MCFocus == " + _to_tla(set(fam["focus"])),
-    "MCFullCheck == " + _to_tla(bool(fam.get("full"))),
-  ]
-  return "---- MODULE MC_StyleSweep ----\nEXTENDS StyleSweep\n" + "\n".join(defs) + "\n====\n"
+def mc_module(fams):
+  """MC module for a group of families (one TLC run): Fams = sequence of family records."""
+  recs = []
+  for fam in fams:
+    recs.append(dict(skel=SKELS[fam["skel"]], axes=fam["axes"], anim=SetLit(fam["anim"]), ini=SetLit(fam["ini"]),
+                     geos=SetLit(fam["geo"]), times=fam["times"], focus=set(fam["focus"]), full=bool(fam.get("full"))))
+  return "---- MODULE MC_StyleSweep ----\nEXTENDS StyleSweep\nMCFams == " + _to_tla(recs) + "\n====\n"
 
 
 class SetLit(list):
   """A python list to be rendered as a TLA+ set (elements may be unhashable)."""
-
-
-def set_of_seqs(x):
-  return SetLit(x)
 
 
 _orig_to_tla = T.to_tla
